@@ -51,7 +51,7 @@ Theorem C08_client_reconnect_rearms : forall s,
 Proof. exact reconnect_rearms. Qed.
 Print Assumptions C08_client_reconnect_rearms.
 
-Theorem C08_client_drop_parks_timer : forall s, conn s = true -> started s = true -> (tmo s = TOff -> tok s = true) ->
+Theorem C08_client_drop_parks_timer : forall s, conn s = true -> started s = true ->
   tmo (step Drop s) = TLong /\ tok (step Drop s) = (match tmo s with TOff => false | _ => tok s end) /\ pumpStuck (step Drop s) = pumpStuck s.
 Proof. exact drop_parks_timer. Qed.
 Print Assumptions C08_client_drop_parks_timer.
